@@ -58,6 +58,9 @@ func symbolCommands(sym string, i int) [][]string {
 	case "wL":
 		// a value far larger than any small-argument shortcut, still inside one read buffer
 		return [][]string{{"SET", "k1", "L" + p + ":" + strings.Repeat("0123456789abcdef", 1250)}}
+	case "wM":
+		// one argument just above 1 MiB (above every read-chunk / preallocation constant of the decoders)
+		return [][]string{{"SET", "k1", "M" + p + ":" + strings.Repeat("0123456789abcdef", 65536+1)}}
 	case "wH":
 		// a value larger than the 64 KiB replication read buffer
 		return [][]string{{"SET", "k2", "H" + p + ":" + strings.Repeat("fedcba9876543210", 4500)}}
